@@ -15,6 +15,19 @@ theorem wideRev_eq (l : List Layer) : wideRev l = l.reverse := by
   | nil => rfl
   | cons x xs ih => simp [wideRev, ih]
 
+/-- **the translated call-order tables say what the property says.**  `deep` is defined from `Gen.ownFirstCodes` /
+    `Gen.restFirstCodes`, which the translator reads off `S_::deepX` and `A_<First, Rest...>::wideX` on every run; this
+    equation (checked by evaluation) is where a change of any of those call orders in the source stops the C15
+    theorems from going through -/
+theorem C15_layer_tables (k : Nat) (m : Method) : deep k m =
+    (match m with
+     | .entryGuard | .enter | .reenter | .preUpdate | .update | .preReact | .react => wideFwd (injections k) ++ [.own]
+     | .postUpdate | .postReact | .exit => .own :: wideRev (injections k)
+     | .exitGuard => wideRev (injections k) ++ [.own]
+     | .query => .own :: wideFwd (injections k)
+     | .planSucceeded | .planFailed => [.own]) := by
+  cases m <;> rfl
+
 /-- the methods the property lists on the "set-up" side -/
 def preSide : List Method := [.entryGuard, .enter, .reenter, .preUpdate, .update, .preReact, .react]
 /-- … and on the "tear-down" side -/
@@ -24,13 +37,13 @@ def postSide : List Method := [.exit, .postUpdate, .postReact]
 theorem C15_pre_order (k : Nat) (m : Method) (hm : m ∈ preSide) :
     deep k m = injections k ++ [.own] := by
   simp [preSide] at hm
-  rcases hm with rfl | rfl | rfl | rfl | rfl | rfl | rfl <;> simp [deep, wideFwd_eq]
+  rcases hm with rfl | rfl | rfl | rfl | rfl | rfl | rfl <;> simp [C15_layer_tables, wideFwd_eq]
 
 /-- **C15 post order**: the state first, then `Ik..I1` -/
 theorem C15_post_order (k : Nat) (m : Method) (hm : m ∈ postSide) :
     deep k m = .own :: (injections k).reverse := by
   simp [postSide] at hm
-  rcases hm with rfl | rfl | rfl <;> simp [deep, wideRev_eq]
+  rcases hm with rfl | rfl | rfl <;> simp [C15_layer_tables, wideRev_eq]
 
 /-- **C15 nesting**: tear-down order is the exact reverse of set-up order -/
 theorem C15_nesting (k : Nat) (m m' : Method) (hm : m ∈ preSide) (hm' : m' ∈ postSide) :
@@ -72,9 +85,9 @@ theorem C15_exactly_once (k : Nat) (m : Method) (hm : m ∈ preSide ∨ m ∈ po
 
 /-- methods outside the property's two lists, recorded as the code has them -/
 theorem C15_exitGuard_order (k : Nat) : deep k .exitGuard = (injections k).reverse ++ [.own] := by
-  simp [deep, wideRev_eq]
+  simp [C15_layer_tables, wideRev_eq]
 theorem C15_query_order (k : Nat) : deep k .query = .own :: injections k := by
-  simp [deep, wideFwd_eq]
+  simp [C15_layer_tables, wideFwd_eq]
 
 /-- non-vacuity: three injections -/
 example : deep 3 .enter = [.inj 0, .inj 1, .inj 2, .own] ∧ deep 3 .exit = [.own, .inj 2, .inj 1, .inj 0] := by
